@@ -255,6 +255,17 @@ def restore (uid excl : Nat) (an : Annot) : Option PodAlloc :=
     if an.numa.length = 0 ∧ cpus = [] then none
     else some { uid := uid, cpus := cpus, excl := excl, numa := an.numa }
 
+/-- the `PreferredCPUExclusivePolicy` a handler will read back from the object after PreBind
+    (plugin.go `appendResourceSpecIfMissed`, util/reservation `NewReservePod`).  `kind` 0 = pod,
+    1 = Reservation whose resource-spec annotation sits on the Reservation itself, 2 = Reservation whose
+    resource-spec annotation sits on `spec.template` (where a pod template carries it).
+    For a CPU-bind allocation `appendResourceSpecIfMissed` reads the spec from `object.GetAnnotations()`
+    only; for kind 2 that is empty, so it writes `{preferredCPUBindPolicy: …}` onto the Reservation, and
+    `NewReservePod` lets the Reservation's annotation overwrite the template's: the exclusive policy
+    the allocation was made with is no longer readable (as written, not tidied). -/
+def persistedExcl (kind : Nat) (a : PodAlloc) : Nat :=
+  if kind = 2 ∧ a.cpus ≠ [] then 0 else a.excl
+
 /-- an object as the API server holds it. -/
 structure Obj where
   uid      : Nat
